@@ -25,7 +25,12 @@ lines.append("Each sub-agent saw only the text of one property and a scratch "
              "chunks / shards, big payloads, long histories); round 3 (S3-*) "
              "required an interaction: a sequence of calls, a combination of "
              "options, state carried between calls or objects, or a failure "
-             "at one point of a multi-step operation. 60 changes in total; "
+             "at one point of a multi-step operation; round 4 (S4-*) required "
+             "the defect to sit outside the function a reader of the property "
+             "would inspect first (a shared helper, a factory, a default, an "
+             "accessor, a script's argument handling, a memory-layout or "
+             "byte-order assumption) and to give silently wrong results. 80 "
+             "changes in total; "
              "the 'caught by' column says when a check had to be "
              "strengthened first.\n")
 lines.append("| seeded change | breaks | what it needs to manifest | caught by"
